@@ -388,7 +388,7 @@ def _run_forms(shape, res, sink):
             joker = S.st.thejoker.TheJoker(S.JokerPrior(S), pool=pool, rng=rng)
             src = S.as_file(lib, lnp) if src_kind == "filename" else S.as_samples(lib, lnp)
             o = joker.rejection_sample(data, src, n_prior_samples=k, n_linear_samples=shape.get("n_lin", 1), n_batches=nb, randomize_prior_order=rnd, in_memory=inmem)
-            req = [(d[0], d[1], d[2]) if d[0] == "choice" else (d[0],) for d in S.w.streams.get(("root",), []) if d[0] in ("choice", "uniform")]
+            req = [(d[0], d[1], d[2]) if d[0] in ("choice", "integers") else (d[0],) for d in S.w.streams.get(("root",), []) if d[0] in ("choice", "uniform", "integers")]
             outs.append((src_kind, inmem, nb, req, groupa.observe_samples(o)))
         return lib, outs
     ex = core.Explorer(max_paths=3000)
@@ -495,6 +495,25 @@ def replay(cand):
             for tag, other in (("JokerSamples object", jb), ("file name, n_batches=5", jc)):
                 if len(ja) != len(other) or not np.array_equal(ja["P"].value, other["P"].value):
                     bad.append("equal seeds, n_prior_samples=%r, randomize_prior_order=%r: accepted set via the file name differs from %s" % (kk, rr, tag))
+        # two successive calls on one sampler: the second call must not depend on how the first one was batched
+        wk0 = tj.RVData(t, data.rv, np.full(len(t), 25.0) * u.km / u.s)       # weak data: many acceptances, so several posterior batches
+        wl0 = prior.sample(size=120, rng=np.random.default_rng(12))
+
+        def two_calls(nb_):
+            jj = tj.TheJoker(prior, rng=np.random.default_rng(17))
+            jj.rejection_sample(wk0, wl0, n_batches=nb_)
+            return jj.rejection_sample(wk0, wl0, n_batches=nb_)
+        r1, r4 = two_calls(1), two_calls(4)
+        if len(r1) != len(r4) or not np.array_equal(r1["P"].value, r4["P"].value):
+            bad.append("second of two calls on one sampler: accepted set with n_batches=1 differs from n_batches=4 (equal seeds)")
+        # a binding max_posterior_samples with several linear draws per sample: in memory vs cache file
+        wk = tj.RVData(t, data.rv, np.full(len(t), 25.0) * u.km / u.s)
+        wl = prior.sample(size=120, rng=np.random.default_rng(12))
+        pm_ = tj.TheJoker(prior, rng=np.random.default_rng(5)).rejection_sample(wk, wl, n_linear_samples=3, max_posterior_samples=7, in_memory=True)
+        pf_ = tj.TheJoker(prior, rng=np.random.default_rng(5)).rejection_sample(wk, wl, n_linear_samples=3, max_posterior_samples=7, in_memory=False)
+        if len(pm_) != len(pf_) or not np.array_equal(pm_["P"].value, pf_["P"].value):
+            bad.append("n_linear_samples=3, max_posterior_samples=7: in-memory returns %d rows (%d distinct samples), the cache path %d rows (%d distinct)" % (
+                len(pm_), len(np.unique(pm_["P"].value)), len(pf_), len(np.unique(pf_["P"].value))))
         # several linear draws per accepted sample: one batch vs several batches (nonlinear rows must coincide)
         wide = prior.sample(size=120, rng=np.random.default_rng(12))
         weak = tj.RVData(t, data.rv, np.full(len(t), 25.0) * u.km / u.s)          # weak data: many acceptances, several per batch
